@@ -1480,7 +1480,30 @@ Qed.
 Example unescaped_markup_is_tainted : Tainted (tag_str [60]).
 Proof. exists (tag1 60). split; [left; reflexivity|split; vm_compute; reflexivity]. Qed.
 
-(** * Part G — the process-wide cache of [date] (DESIGN §10 row 32) *)
+(** * Part G — the [date] filter *)
+
+(** Current code: a data format is always escaped on output, whatever the date
+    library does ... *)
+Theorem date_data_format_escaped_now : forall strftime dat fmt,
+  fst fmt = false -> ~ Tainted (tls_ae (vstr (date_filter strftime dat fmt))).
+Proof.
+  intros st dat [sf f] Hf. cbn [fst] in Hf. subst sf. apply Clean_not_tainted.
+  unfold date_filter. cbn [fst snd]. destruct (st dat f); apply escape_Clean.
+Qed.
+
+(** ... and a literal format yields Markup made of the format's characters and
+    of what strftime adds (explicit premise: strftime maps an untainted format
+    to an untainted text). *)
+Theorem date_preserves_safe_inv : forall strftime dat fmt,
+  (forall d f r, Clean f -> strftime d f = Some r -> Clean r) ->
+  m_ok fmt = true -> m_ok (date_filter strftime dat fmt) = true.
+Proof.
+  intros st dat [[|] f] Hst Hf; unfold date_filter; cbn [fst snd] in *.
+  - destruct (st dat f) as [r|] eqn:E; [|reflexivity]. apply m_ok_safe. apply (Hst dat f r Hf E).
+  - destruct (st dat f); reflexivity.
+Qed.
+
+(** ** HISTORICAL: the lru_cache that wrapped [date] before fix c40f103 *)
 
 (** What an uncached [date] returns: Markup exactly when the format is Markup
     (misc.py:113-115). *)
